@@ -1,5 +1,5 @@
 /-
-C16 — the model of `Request.ReadEntity` (request.go:75-104) and of what it calls:
+C16 — the model of `Request.ReadEntity` (request.go:77-119) and of what it calls:
 `entityReaderWriters.accessorAt` (entity_accessors.go:69-84), the two built-in readers
 (entity_accessors.go:92-94, 136-140), the two compressor providers as far as gzip READERS are
 concerned (compressor_pools.go:44-50, 70-83; compressor_cache.go:25-42, 66-87).
@@ -11,7 +11,12 @@ What the model carries is the glue:
     the default fallback, the 400 when there is none,
   * `UseNumber` as a flag of the JSON reader,
   * the pooled `*gzip.Reader` as an OBJECT WITH STATE (`residue`) taken from / returned to a pool,
-    `Reset` onto the new body with its error dropped, the deferred release on every path.
+    `Reset` onto the new body with its error dropped, the deferred release on every path,
+  * the drain (request.go:111-117, repair 75d0593 of the former finding F61): after a SUCCESSFUL
+    entity read of a gzip- or deflate-declared body the rest of the decompressing stream is read to
+    its end and the error it ends with is returned; an undeclared (identity) body is not drained;
+    when the entity reader fails its error is returned and nothing is drained; the pooled reader is
+    released after the drain, in the state the drain left it in.
 
 What the model does NOT carry is the codecs: `encoding/json`, `encoding/xml`, `compress/gzip`,
 `compress/zlib` are the operations of an abstract `Codec`; what the theorems need to know about
@@ -22,7 +27,9 @@ value and body it uses).
 A reader (decompressor or plain body) is seen by the entity decoder as a `Stream`: the bytes it
 delivers before its terminal condition, and whether that condition is a clean EOF or an error.
 This is needed to model the code as it is: `json.Decoder.Decode` / `xml.Decoder.Decode` stop at
-the end of the first complete document and never look at what the stream does afterwards.
+the end of the first complete document and never look at what the stream does afterwards; it is
+`ReadEntity` itself that reads a compressed stream on to its terminal condition (`Stream.clean`),
+which both decompressors keep and return again on every later `Read`.
 -/
 import Restful.Go.Str
 namespace Restful
@@ -60,12 +67,17 @@ structure Codec (Value : Type) where
   zl : Bytes → Bytes
   /-- a FRESH `gzip.Reader` on these bytes; a header error is the stream `⟨[], false⟩` -/
   ungz : Bytes → Stream
-  /-- `zlib.NewReader(bytes)`; `none` = it returns an error (request.go:86-88) -/
+  /-- `zlib.NewReader(bytes)`; `none` = it returns an error (request.go:90-93) -/
   unzl : Bytes → Option Stream
   /-- what reading a reader OBJECT delivers, as a function of its whole state -/
   gzRead : GzReader → Stream
-  /-- the state a reader object is left in after having been read by an entity decoder -/
+  /-- the state a reader object is left in after having been read by an entity decoder (which
+      stops after the first complete document, or at the error it runs into) -/
   gzLeft : GzReader → Bytes
+  /-- the state a reader object — as the entity decoder left it — is in after
+      `io.Copy(ioutil.Discard, ·)` has read it on to the end of its stream (request.go:114): the
+      terminal condition (EOF, checksum / trailer / next-member error) reached and kept -/
+  gzEnd : GzReader → Bytes
 
 /-- "none = error" views of the two decompressors (whole body, clean end) -/
 def Codec.ungzAll {Value : Type} (C : Codec Value) (b : Bytes) : Option Bytes :=
@@ -88,10 +100,10 @@ structure CodecLaws (Value : Type) extends Codec Value where
   /-- `(*gzip.Reader).Reset(src)`: afterwards the reader behaves like a fresh reader on `src`,
       whatever it was used for before (also when `Reset` itself reports an error) -/
   reset_law : ∀ (r : GzReader) (body : Bytes), gzRead { r with src := body } = ungz body
-  /-- a decoder that finds no document in bytes followed by a clean EOF finds none in the same
-      bytes followed by an error -/
-  json_dirty : ∀ (u : Bool) (b : Bytes), decJson u ⟨b, true⟩ = none → decJson u ⟨b, false⟩ = none
-  xml_dirty : ∀ b : Bytes, decXml ⟨b, true⟩ = none → decXml ⟨b, false⟩ = none
+  /- (Until 75d0593 two more laws were needed — `json_dirty`, `xml_dirty`: a decoder that finds no
+     document before a clean EOF finds none in the same bytes before an error.  Since `ReadEntity`
+     reads a compressed stream to its end itself, no theorem depends on what a decoder does with
+     a stream that ends in an error.) -/
 
 /-! ### configuration -/
 
@@ -103,7 +115,7 @@ inductive Kind where
 structure Cfg where
   /-- `entityAccessRegistry.accessors` (a Go map: keys distinct, order meaningless) -/
   registry : List (Str × Kind)
-  /-- `defaultRequestContentType` (request.go:12, 36-38); empty = unset -/
+  /-- `defaultRequestContentType` (request.go:14, 38-40); empty = unset -/
   dflt : Str := []
   /-- whether `entityJSONAccess.Read` calls `decoder.UseNumber()` (entity_accessors.go:138: it does) -/
   useNumber : Bool := true
@@ -140,7 +152,7 @@ def accessorAt (reg : List (Str × Kind)) (mime : Str) : List Kind :=
   | some e => [e.2]
   | none => dedup ((reg.filter (fun e => containsSub e.1 mime)).map (·.2))
 
-/-- request.go:94-103: the lookup with the default fallback; `[]` is the 400 -/
+/-- request.go:99-107: the lookup with the default fallback; `[]` is the 400 -/
 def accessorsFor (cfg : Cfg) (ct : Str) : List Kind :=
   match accessorAt cfg.registry ct with
   | [] => if cfg.dflt.isEmpty then [] else accessorAt cfg.registry cfg.dflt
@@ -159,9 +171,9 @@ def lookupTag (cfg : Cfg) (ct : Str) : String :=
 /-! ### results -/
 
 inductive ErrKind where
-  | badEncoding    -- `zlib.NewReader` failed, or the entity decoder hit the error a decompressor ended with
+  | badEncoding    -- `zlib.NewReader` failed, or the entity decoder — or the drain after it — hit the error a decompressor ended with
   | badSyntax      -- the entity decoder rejected bytes that ended with a clean EOF
-  | noReader400    -- request.go:101 `NewError(400, "Unable to unmarshal content of type:…")`
+  | noReader400    -- request.go:105 `NewError(400, "Unable to unmarshal content of type:…")`
   deriving DecidableEq, Repr
 
 /-- what `ReadEntity` returns.  There is no panic constructor: see `C16_error_no_panic`. -/
@@ -182,7 +194,7 @@ def entityRead {Value : Type} (C : Codec Value) (cfg : Cfg) (k : Kind) (s : Stre
   | some v => .ok v
   | none => .err (if s.clean then .badSyntax else .badEncoding)
 
-/-- request.go:94-103: every result the lookup allows, one per possible reader kind -/
+/-- request.go:99-110: every result the lookup allows, one per possible reader kind -/
 def lookupAndRead {Value : Type} (C : Codec Value) (cfg : Cfg) (ct : Str) (s : Stream) : List (Result Value) :=
   match accessorsFor cfg ct with
   | [] => [.err .noReader400]
@@ -258,20 +270,45 @@ structure Outcome (Value : Type) where
   reader : Option Nat
   decoder : Decoder
 
-/-- request.go:75-104 -/
-def readEntity {Value : Type} (C : Codec Value) (cfg : Cfg) (pool : Pool) (req : RequestIn) : Outcome Value :=
-  if req.contentEncoding = ENCODING_GZIP then                              -- :80
-    let a := pool.acquire C                                                 -- :81 AcquireGzipReader
-    let r1 : GzReader := { a.1 with src := req.body }                       -- :83 Reset(body), error dropped
-    let results := lookupAndRead C cfg req.contentType (C.gzRead r1)        -- :84, :94-103
+/-- request.go:108-118, the tail of `ReadEntity` on a body whose coding was declared (`compressed`):
+    an error of the entity reader is returned as it is (:108-110, nothing is drained); after a
+    successful read the stream `s` is read on to its end and what it ends with decides (:111-117):
+    clean EOF ⇒ the value, an error ⇒ that error (`.badEncoding`, the constructor of every error a
+    decompressor produces).  Both decompressors keep their terminal condition and return it again
+    on every later `Read`, so it is `s.clean` whether or not the decoder already ran into it. -/
+def drain {Value : Type} (s : Stream) : Result Value → Result Value
+  | .ok v => if s.clean then .ok v else .err .badEncoding
+  | .err k => .err k
+
+/-- the pooled reader object as the deferred release hands it back (request.go:85), as a function
+    of what happened between `Reset` and the return.  `read` lists the entity reader's possible
+    results; when the Content-Type is ambiguous (class F62) the state recorded is the one after the
+    first listed reader — only `residue` depends on that choice, and a reader object obeying
+    `reset_law` never shows its residue again. -/
+def readerAfter {Value : Type} (C : Codec Value) (r1 : GzReader) (read : List (Result Value)) : GzReader :=
+  match read with
+  | .err .noReader400 :: _ => r1                                           -- :105 returned before anything was read from it
+  | .ok _ :: _ =>                                                          -- :108 decoded, then :114 read to the end
     let r2 : GzReader := { r1 with residue := C.gzLeft r1 }
-    { results := results, pool := a.2.release r2,                           -- :82 deferred: runs on every path
+    { r2 with residue := C.gzEnd r2 }
+  | _ => { r1 with residue := C.gzLeft r1 }                                -- :109 the entity reader failed: not drained
+
+/-- request.go:77-119 -/
+def readEntity {Value : Type} (C : Codec Value) (cfg : Cfg) (pool : Pool) (req : RequestIn) : Outcome Value :=
+  if req.contentEncoding = ENCODING_GZIP then                              -- :83
+    let a := pool.acquire C                                                 -- :84 AcquireGzipReader
+    let r1 : GzReader := { a.1 with src := req.body }                       -- :86 Reset(body), error dropped
+    let s := C.gzRead r1                                                    -- :87 what the body now delivers
+    let read := lookupAndRead C cfg req.contentType s                       -- :99-110 lookup, entityReader.Read
+    { results := read.map (drain s),                                        -- :111-118 compressed: drained
+      pool := a.2.release (readerAfter C r1 read),                          -- :85 deferred: runs on every path, after the drain
       events := [.acquire, .use, .release], reader := some a.1.id, decoder := .gzip }
-  else if req.contentEncoding = ENCODING_DEFLATE then                      -- :85
+  else if req.contentEncoding = ENCODING_DEFLATE then                      -- :89
     match C.unzl req.body with
-    | none => { results := [.err .badEncoding], pool := pool, events := [], reader := none, decoder := .deflate }   -- :87-89
-    | some s => { results := lookupAndRead C cfg req.contentType s, pool := pool, events := [], reader := none, decoder := .deflate }
-  else
+    | none => { results := [.err .badEncoding], pool := pool, events := [], reader := none, decoder := .deflate }   -- :91-93
+    | some s => { results := (lookupAndRead C cfg req.contentType s).map (drain s),                                  -- :94-95, :99-118 compressed: drained
+                  pool := pool, events := [], reader := none, decoder := .deflate }
+  else                                                                     -- no coding declared: `compressed` stays false, never drained
     { results := lookupAndRead C cfg req.contentType ⟨req.body, true⟩, pool := pool, events := [], reader := none, decoder := .identity }
 
 /-- a sequence of reads on one provider -/
@@ -310,7 +347,9 @@ def writeEntity {Value : Type} (C : Codec Value) (k : Kind) (pretty : Bool) (v :
 def requestOf {Value : Type} (C : Codec Value) (k : Kind) (pretty : Bool) (v : Value) (ct : Str) (c : Coding) : RequestIn :=
   { contentType := ct, contentEncoding := c.header, body := encodeBody C c (writeEntity C k pretty v) }
 
-/-! ### the classes of the two deviations (hypotheses of the `_partial` theorems) -/
+/-! ### the classes of the two deviations found (F62: hypothesis of the `_partial` theorems;
+    F61, repaired by 75d0593: no theorem assumes it any more — it remains as a coverage class that
+    the driver reports, so that the check can measure that its stream keeps visiting it) -/
 
 /-- the stream the DECLARED coding yields on this body, read by a fresh decompressor
     (`none`: `zlib.NewReader` refuses the header) -/
@@ -325,8 +364,9 @@ def docFor {Value : Type} (C : Codec Value) (cfg : Cfg) (k : Kind) (data : Bytes
   | .json => (C.decJson cfg.useNumber ⟨data, true⟩).isSome
   | .xml => (C.decXml ⟨data, true⟩).isSome
 
-/-- class F61 "complete document before the stream breaks": the declared coding's stream ends in
-    an error, but what it delivered before is already a complete document for a selectable reader -/
+/-- former class F61 "complete document before the stream breaks": the declared coding's stream
+    ends in an error, but what it delivered before is already a complete document for a selectable
+    reader (before 75d0593 such a request was read without error; see `C16_former_F61_class`) -/
 def f61 {Value : Type} (C : Codec Value) (cfg : Cfg) (req : RequestIn) : Bool :=
   match declaredStream C req with
   | some s => !s.clean && (accessorsFor cfg req.contentType).any (fun k => docFor C cfg k s.data)
